@@ -142,6 +142,9 @@ def streams(ctx):
     ctx.run_cases(HIST, "all-ordered-pairs-of-15-operation-kinds", _pairs(rng), exhaustive=True, sample_every=97)
     ctx.run_cases(HIST, "sequences-up-to-20-on-one-connection", _sequences(rng, ctx.n(120, 3000)), exhaustive=False, sample_every=60)
     ctx.run_cases(HIST, "two-instances-interleaved", _interleaved(rng, ctx.n(250, 7000)), exhaustive=False, sample_every=120)
+    # two clients of ONE device (same address, same API class), connected at the same time
+    same = [dict(h, same_ip=True) for h in _interleaved(rng, ctx.n(120, 3000)) if h["instances"][0]["api"] == h["instances"][1]["api"]]
+    ctx.run_cases(HIST, "two-instances-on-one-address", same, exhaustive=False, sample_every=60)
 
 
 def search(ctx, broken):
